@@ -77,7 +77,21 @@ def raw_cfgs():
         c.append({"OP": op, "CNT": 1, "ALIGN": 8, "_tier": "thorough"})                   # alignment larger than the block
     return c
 
+def wp_cfgs():
+    c = []
+    for cnt, blk, t in ((4, 2, {}), (3, 0, {}), (1, 5, {"_tier": "thorough"}), (2, 6, {"_tier": "thorough"})):
+        uw = ["unix_write_blk64.0:%d" % (cnt + 1)]
+        d = dict({"CNT": cnt, "BLOCK": blk, "_unwindset": uw}, **t)
+        c.append(dict(d, FAULT=None))
+        c.append(dict(d, FAULT=None, WITH_WRITETHROUGH=None))
+    return c
+
 HARNESSES = [
+    dict(name="write_protocol", src="write_protocol.c",
+         cut_statics={"lib/ext2fs/unix_io.c": ["find_cached_block", "raw_write_blk", "reuse_cache"]},
+         funcs=["unix_write_blk64"], configs=wp_cfgs(), unwind=10, backends=["default"],
+         bound="real cache geometry; request of 3 and 4 (thorough: 1, 2) blocks, start block concrete per query, every cached/uncached pattern, "
+               "write-back and write-through, eviction / device-write failure symbolic; callees cut to specification stubs"),
     dict(name="rw_locks", src="rw_locks.c",
          funcs=["read_bitmaps_range_start", "bitmap_tail_verify"],
          unwind=4, unwindset=["bitmap_tail_verify.0:10", "io_channel_read_blk64.0:10", "main.0:3", "main.1:3", "main.2:3",
